@@ -57,6 +57,7 @@ type G struct {
 	R *simrt.Rng
 	P Params
 	inOrdered int
+	forKey    bool // the value being generated is a list key
 	// small value pools so that histories revisit the same keys and values
 	Strs []string
 }
@@ -66,7 +67,7 @@ func New(r *simrt.Rng, p Params) *G {
 	// revisit values), plus a few that are valid but unusual as list keys and leaf values:
 	// a colon (module-prefix look-alike), a slash, '=', a space, a dot, a leading digit
 	return &G{R: r, P: p, Strs: []string{"a", "b", "c", "ab", "xyz", "q", "foo", "k", "a", "b", "c", "ab",
-		"65000:100", "eth0:1", "ge-0/0/1", "k=v", "x y", "1.2.3.4", "9lives", "ab:cd:ef"}}
+		"65000:100", "eth0:1", "ge-0/0/1", "k=v", "x y", "1.2.3.4", "9lives", "ab:cd:ef", "7", "123", "007"}}
 }
 
 func (g *G) chance(p float64) bool {
@@ -228,6 +229,25 @@ func inRange(t *yang.YangType, neg bool, abs uint64) bool {
 var intPool = []int64{0, 1, 2, 3, 5, 7, 42, 64, 100, 127, 1500, 9216, 65535, 1 << 20, -1, -2, -100, -128}
 
 func (g *G) intVal(t *yang.YangType, bits int, signed bool) (int64, uint64, bool) {
+	if bits == 64 && g.R.Intn(6) == 0 {
+		// the far ends of the 64-bit types (uint64 values do not fit an int64)
+		if signed {
+			c := []int64{1<<63 - 1, -1 << 63, 1<<63 - 2}[g.R.Intn(3)]
+			neg := c < 0
+			abs := uint64(c)
+			if neg {
+				abs = uint64(-(c + 1)) + 1
+			}
+			if inRange(t, neg, abs) {
+				return c, uint64(c), true
+			}
+		} else {
+			u := []uint64{1 << 63, 1<<64 - 1, 1<<63 + 12345}[g.R.Intn(3)]
+			if inRange(t, false, u) {
+				return int64(u), u, true
+			}
+		}
+	}
 	for try := 0; try < 40; try++ {
 		c := intPool[g.R.Intn(len(intPool))]
 		if !signed && c < 0 {
@@ -343,6 +363,19 @@ func (g *G) scalar(t reflect.Type, yt *yang.YangType) (reflect.Value, bool) {
 	return v, true
 }
 
+// UnrestrictedStringFirst reports whether t is a union whose first member is a string
+// without pattern or length restriction.
+func UnrestrictedStringFirst(t *yang.YangType) bool {
+	m := unionMembers(t)
+	if t == nil || t.Kind != yang.Yunion || len(m) == 0 {
+		return false
+	}
+	return m[0].Kind == yang.Ystring && len(m[0].Pattern) == 0 && len(m[0].POSIXPattern) == 0 && len(m[0].Length) == 0
+}
+
+// EffType is the leaf's type with leafrefs resolved.
+func EffType(e *yang.Entry) *yang.YangType { return effType(e) }
+
 // unionMembers flattens the member types of a (possibly nested / leafref'd) union.
 func unionMembers(yt *yang.YangType) []*yang.YangType {
 	if yt == nil {
@@ -388,6 +421,13 @@ func (g *G) union(parent reflect.Value, ut reflect.Type, e *yang.Entry) (reflect
 		var mt *yang.YangType
 		if len(mem) > 0 {
 			mt = mem[g.R.Intn(len(mem))]
+			// A key is named by a string in a path. If the union's first member is an
+			// unrestricted string, every key string denotes that member (YANG resolves a
+			// union to the first member that accepts the value), so keys of such unions are
+			// always generated as strings - digit-only ones included.
+			if g.forKey && UnrestrictedStringFirst(yt) {
+				mt = mem[0]
+			}
 		}
 		kind := yang.Ystring
 		if mt != nil {
@@ -620,7 +660,9 @@ func (g *G) NewEntry(et reflect.Type, keyType reflect.Type, listSch *yang.Entry,
 		}
 		sf := et.Field(i)
 		rel := strings.Split(sf.Tag.Get("path"), "|")[0]
+		g.forKey = true
 		v, vok := g.LeafValue(e, sf.Type, model.Child(listSch, rel))
+		g.forKey = false
 		if !vok {
 			return e, reflect.Value{}, false
 		}
